@@ -756,8 +756,8 @@ impl Property for P15 {
         // a frame of more than 16 MiB (most significant prefix byte non-zero), whole and in 5 MiB pieces with a cancellation
         for g in [u32::MAX, 5 << 20] {
             let src = if g == u32::MAX { vec![] } else { vec![Step::Xfer(g), Step::Pending, Step::Xfer(g), Step::Xfer(g)] };
-            let vals = vec![ValSpec { ty: Ty::Bytes, size: 3, seed: 7 }, bytes_spec_with_encoding_len((16 << 20) + 11), ValSpec { ty: Ty::Bytes, size: 3, seed: 8 }];
-            out.push(C15 { src, caller: vec![Decide::Cancel], max_len_mode: 1, ..base(Ty::Bytes, vals) });
+            let vals = vec![ValSpec { ty: Ty::Str, size: 3, seed: 7 }, spec_with_encoding_len(Ty::Str, (16 << 20) + 11), ValSpec { ty: Ty::Str, size: 3, seed: 8 }];
+            out.push(C15 { src, caller: vec![Decide::Cancel], max_len_mode: 1, ..base(Ty::Str, vals) });
         }
         // more than 65536 frames through one reader (16-bit counters)
         out.push(base(Ty::U64, (0..65_700u64).map(|i| ValSpec { ty: Ty::U64, size: 0, seed: i }).collect()));
